@@ -223,6 +223,7 @@ Definition verdict (c : case) : list nat :=
        | Some o => match md with
                    | Some d => let (d', _) := fuse_steps (scatter_dsk d) (c_fsteps c) in
                                fst (fuse_steps_weak (scatter_dsk d) (c_fsteps c)) && dsk_same d' o
+                               && inline_only (c_fsteps c)      (* rename_keys=False: no alias steps *)
                                && avoids results (c_fsteps c) && nodupp (dkeys (scatter_dsk d))
                    | None => false
                    end
@@ -272,10 +273,4 @@ Definition verdict (c : case) : list nat :=
   tag (g_ctx_order wf) 203 ++          (* informational since /repo 4400919: not a guard any more *)
   tag (match output_tasks wf with [_] => true | _ => false end) 204 ++
   tag (length (topo_order wf) =? length (nodes wf)) 205 ++
-  tag (g_keys_fresh prep ids) 206 ++
-  (* guard of alias_preserves / fuse_steps_preserve (finding C17-FUSE-ALIAS-COLLISION): no alias name fuse made up
-     is mentioned by a value *)
-  tag (match md with
-       | Some d => negb (snd (fuse_steps_weak (scatter_dsk d) (c_fsteps c)))
-       | None => true
-       end) 207.
+  tag (g_keys_fresh prep ids) 206.
